@@ -1,6 +1,7 @@
 import PhononModel.Lemmas.EOS
 import PhononModel.Model.QHA
 import PhononModel.Gen.ThermalUnits
+import PhononModel.Gen.Units
 import Mathlib.Tactic.Ring
 /-!
 # C20 — equations of state and quasi-harmonic analysis
@@ -231,6 +232,29 @@ theorem electronic_per_temperature {nt nv : Nat} (c1 c2 : ℝ) (vol : Fin nv →
   · intro e i j
     rfl
 
+/-- **repeated_construction** — the analysis copies its inputs: however many analyses are run on the same caller
+arrays, each one sees `E_el + P·V/c` (the +PV term once); taking the inputs without a copy would add it `n + 1`
+times in the `(n+1)`-th analysis, which differs as soon as `P·V ≠ 0` (the harness requires the caller's arrays
+bit-identical after construction and `run()`, and equal results of repeated analyses). -/
+theorem repeated_construction {nt nv : Nat} (c : ℝ) (vol : Fin nv → ℝ) (Pr : ℝ) (e : Fin nt → Fin nv → ℝ) (n : Nat) :
+    (∀ i j, repeated (construct c vol (some Pr)) n (.perT e) i j = e i j + vol j * Pr / c) ∧
+    (∀ i j, repeated (constructAliased c vol (some Pr)) n (.perT e) i j = e i j + (n + 1) * (vol j * Pr / c)) ∧
+    (construct c vol (some Pr) (.perT e)).2 = .perT e := by
+  refine ⟨?_, ?_, rfl⟩
+  · induction n with
+    | zero => intro i j; rfl
+    | succ n ih => intro i j; exact ih i j
+  · induction n generalizing e with
+    | zero => intro i j; simp [repeated, constructAliased, elEnergy]
+    | succ n ih =>
+      intro i j
+      have := ih (fun i j => elEnergy c vol (some Pr) (.perT e : Electronic ℝ nt nv) i j) i j
+      simp only [repeated, constructAliased] at this ⊢
+      rw [this]
+      simp only [elEnergy]
+      push_cast
+      ring
+
 /-! ## finite differences in temperature -/
 
 /-- **central_difference_exact_quadratic** — on an equally spaced temperature grid the thermal-expansion
@@ -299,6 +323,76 @@ theorem pressure_units :
   refine ⟨?_, ?_, ?_, ?_⟩ <;>
   norm_num [ThermalC.EVAngstromToGPa_q, ThermalC.EvTokJmol_q, ThermalC.EV_q, ThermalC.Avogadro_q]
 
+/-- **cp_numerical_exact_quadratic_nonuniform** — for `G(T)` exactly quadratic the numerical heat capacity
+`-2·a₂·T_i` equals `-T_i·g''` on every grid of three distinct temperatures (three-point parabola exactness;
+`g = G·EvTokJmol·1000`). -/
+theorem cp_numerical_exact_quadratic_nonuniform (a b c e th : ℝ) (T : Nat → ℝ) (i : Nat) (hi : 1 ≤ i)
+    (h01 : T (i - 1) ≠ T i) (h12 : T i ≠ T (i + 1)) (h02 : T (i - 1) ≠ T (i + 1)) :
+    cpNumerical e th T (fun k => a + b * T k + c * T k ^ 2) i = -(T i) * (2 * c * e * th) := by
+  have := ((central_difference_exact_quadratic a b c 0 1 one_ne_zero i hi).2 T e th h01 h12 h02).1
+  rw [this]; ring
+
+/-- **cp_polyfit_spec** — the ingredients of `heat_capacity_P_polyfit`: the quartic and its derivative as evaluated by the
+code are a polynomial and its derivative (`dS/dV`), the three-point `dV/dT` is exact for quadratic `V(T)` on any
+grid of distinct temperatures, and the result is `C_V(V_i) + T_i·(dV/dT)·(dS/dV)`; entry 0 is 0; the property
+exists only for electronic energies of shape (V). -/
+theorem cp_polyfit_spec (a b c d e : ℝ) :
+    (∀ x, HasDerivAt (poly4 a b c d e) (dpoly4 a b c d x) x) ∧
+    (∀ (p q r : ℝ) (T : Nat → ℝ) (i : Nat), T (i - 1) ≠ T i → T i ≠ T (i + 1) → T (i - 1) ≠ T (i + 1) →
+      dvdtAt T (fun k => p + q * T k + r * T k ^ 2) i = q + 2 * r * T i) ∧
+    (∀ (T V : Nat → ℝ) (cvc sc : Nat → Fin 5 → ℝ) (j : Nat), j ≠ 0 →
+      cpPolyfit T V cvc sc j = poly4 (cvc j 0) (cvc j 1) (cvc j 2) (cvc j 3) (cvc j 4) (V j)
+        + T j * dvdtAt T V j * dsdv V sc j) ∧
+    (∀ (T V : Nat → ℝ) (cvc sc : Nat → Fin 5 → ℝ), cpPolyfit T V cvc sc 0 = 0) ∧
+    (∀ (nt nv : Nat) (e1 : Fin nv → ℝ) (e2 : Fin nt → Fin nv → ℝ),
+      cpPolyfitAvailable (.static e1 : Electronic ℝ nt nv) = true ∧ cpPolyfitAvailable (.perT e2) = false) := by
+  refine ⟨?_, ?_, ?_, ?_, fun _ _ _ _ => ⟨rfl, rfl⟩⟩
+  · intro x
+    have hx := hasDerivAt_id' x
+    have h4 := (((hx.fun_mul hx).fun_mul hx).fun_mul hx).const_mul a
+    have h3 := ((hx.fun_mul hx).fun_mul hx).const_mul b
+    have h2 := (hx.fun_mul hx).const_mul c
+    have h1 := hx.const_mul d
+    have := (((h4.fun_add h3).fun_add h2).fun_add h1).add_const e
+    refine this.congr_deriv ?_
+    unfold dpoly4; ring
+  · intro p q r T i h01 h12 h02
+    have d01 : T i - T (i - 1) ≠ 0 := sub_ne_zero.2 (Ne.symm h01)
+    have d12 : T (i + 1) - T i ≠ 0 := sub_ne_zero.2 (Ne.symm h12)
+    have d02 : T (i + 1) - T (i - 1) ≠ 0 := sub_ne_zero.2 (Ne.symm h02)
+    simp only [dvdtAt, quadLin, quadCoeff]
+    generalize T (i - 1) = t0 at *
+    generalize T i = t1 at *
+    generalize T (i + 1) = t2 at *
+    field_simp
+    ring
+  · intro T V cvc sc j hj
+    simp [cpPolyfit, dsdv, hj]
+  · intro T V cvc sc
+    simp [cpPolyfit]
+
+/-- every finite-difference entry `i < len = num_elems - 1` with `i ≥ 1` reads only fitted points `i-1, i, i+1 < num_elems`
+(the last fitted temperature serves only as the right neighbour), and `t_max` never selects more than the given
+temperatures — for all arrays, since all are cut to `len` -/
+theorem fd_reads_in_range (ts : List ℝ) (tmax : Option ℝ) (i : Nat) (hi : i < outLen (numElems ts tmax)) :
+    i + 1 < numElems ts tmax ∧ numElems ts tmax ≤ max ts.length (numElems ts tmax) ∧
+    (∀ t, numElems ts (some t) ≤ max ts.length (argminAbs ts t + 1)) := by
+  refine ⟨?_, le_max_right _ _, fun t => ?_⟩
+  · unfold outLen at hi; omega
+  · rw [(num_elems_spec ts).2.1 t]; exact min_le_right _ _
+
+open PhononModel.Units PhononModel.Gen.Units in
+/-- **bulk_modulus_units_monomial** — in the exponent-vector algebra of the unit translator (Gen/Units.lean, regenerated
+from units.py): `EVAngstromToGPa` is `EV / Å³ / 10⁹` (eV/Å³ → GPa, the factor of `bulk_modulus_temperature` and of the
+`+PV` term), `EvTokJmol` is `EV·N_A/10³`, and the Grüneisen conversion `/1000/EvTokJmol*EVAngstromToGPa` of `C_V/V`
+is `1/N_A / Å³ / 10⁹` (J/K/mol per Å³ → GPa/K). -/
+theorem bulk_modulus_units_monomial :
+    normEq EVAngstromToGPa (.div (.div EV (.pow Angstrom 3)) (.num 1 9)) = true ∧
+    normEq EvTokJmol (.div (.mul EV Avogadro) (.num 1 3)) = true ∧
+    normEq (.mul (.div (.div UExpr.one (.num 1 3)) EvTokJmol) EVAngstromToGPa)
+      (.div (.div (.div UExpr.one Avogadro) (.pow Angstrom 3)) (.num 1 9)) = true := by
+  decide +kernel
+
 /-! ## non-vacuity -/
 
 /-- silicon-like parameters are admissible for all three equations of state -/
@@ -321,3 +415,8 @@ end PhononModel.C20
 #print axioms PhononModel.C20.num_elems_spec
 #print axioms PhononModel.C20.gruneisen_spec
 #print axioms PhononModel.C20.pressure_units
+#print axioms PhononModel.C20.repeated_construction
+#print axioms PhononModel.C20.cp_numerical_exact_quadratic_nonuniform
+#print axioms PhononModel.C20.cp_polyfit_spec
+#print axioms PhononModel.C20.fd_reads_in_range
+#print axioms PhononModel.C20.bulk_modulus_units_monomial
